@@ -60,6 +60,12 @@ pub fn replay(args: &Args) {
         let vs: Vec<String> = s.iter().map(|x| sname(*x)).collect();
         // the same series with its nulls written as a NaN whose sign bit is set: the same null
         let vn: Vec<f64> = enc_vec_negnan(&s);
+        // time-valued series: NaT is the null (the i64 minimum underneath - a comparator on the raw
+        // representation would sort it FIRST), valid instants on both sides of the epoch
+        let vdt: Vec<DateTime<unit::Nanosecond>> = s.iter().map(|x| if *x == NULL { DateTime::nat() } else { DateTime::new(*x) }).collect();
+        let vdm: Vec<DateTime<unit::Millisecond>> = s.iter().map(|x| if *x == NULL { DateTime::nat() } else { DateTime::new(*x * 86_400_000) }).collect();
+        let vtd: Vec<TimeDelta> = s.iter().map(|x| if *x == NULL { TimeDelta::nat() } else { TimeDelta::from(*x) }).collect();
+        let vtm: Vec<Time> = s.iter().map(|x| if *x == NULL { Time::nat() } else { Time::from_i64(*x + 1000) }).collect();
 
         // ---- quantiles --------------------------------------------------------------
         if want("quant") {
@@ -198,6 +204,10 @@ pub fn replay(args: &Args) {
                 if names_ok {
                     run!("Vec<String>->Vec<f64>", Vec<f64>, f64, vs);
                 }
+                run!("Vec<DateTime<ns>>->Vec<f64>", Vec<f64>, f64, vdt);
+                run!("Vec<DateTime<ms>>->Vec<f64>", Vec<f64>, f64, vdm);
+                run!("Vec<TimeDelta>->Vec<f64>", Vec<f64>, f64, vtd);
+                run!("Vec<Time>->Vec<f64>", Vec<f64>, f64, vtm);
                 run!("Vec<Option<f64>>->Vec<Option<f64>>", Vec<Option<f64>>, Option<f64>, vo);
                 run!("Vec<Option<i32>>->Vec<f64>", Vec<f64>, f64, voi);
                 clear_log();
@@ -268,6 +278,10 @@ pub fn replay(args: &Args) {
                     if names_ok {
                         runp!("Vec<String>", vs, |x: String| if x == "None" { NULL } else { NAMES.iter().position(|n| *n == x).map(|p| p as i64 - 4).unwrap_or(-777) });
                     }
+                    runp!("Vec<DateTime<ns>>", vdt, |x: DateTime<unit::Nanosecond>| if x.is_nat() { NULL } else { x.into_i64() });
+                    runp!("Vec<DateTime<ms>>", vdm, |x: DateTime<unit::Millisecond>| if x.is_nat() { NULL } else { x.into_i64() / 86_400_000 });
+                    runp!("Vec<TimeDelta>", vtd, |x: TimeDelta| if x.is_nat() { NULL } else { x.inner.num_nanoseconds().unwrap() });
+                    runp!("Vec<Time>", vtm, |x: Time| if x.is_nat() { NULL } else { x.into_i64() - 1000 });
                     runp!("Vec<Option<f64>>", vo, |x: Option<f64>| x.map(|y| y as i64).unwrap_or(NULL));
                     runp!("Vec<Option<i32>>", voi, |x: Option<i32>| x.map(|y| y as i64).unwrap_or(NULL));
                     // element types without a null: every request that needs no padding (k + 1 <= len) must
